@@ -14,7 +14,10 @@ Import ListNotations.
 (** The executable statement of C01 on observed traces (the oracle that the correspondence run
     evaluates on the implementation's observations: results, read data and the full-volume image after
     every operation equal the flat specification's) holds on every trace of the model: every K > 0,
-    volume size, initial punching flag, history of operations and hole-application choices.
+    volume size, initial punching flag, history of operations and hole-application choices.  The
+    operations include reads issued while one chain file cannot be read ([ReadFault off len i], every pread
+    on file i fails): the oracle accepts a failed read only if the live image is what it was, and a read
+    that reports success only if every unit is the specification's value.
     (Together with C06_oracle_holds_on_model this is [block_refines_spec].) *)
 Theorem C01_read_your_writes : forall K nb p rv (h : list (op * list bool)), 0 < K ->
   c01_oracle (mkcfg K nb p rv) (map fst h) (trace true K rv (init nb p) h) = true.
@@ -49,12 +52,43 @@ Proof. exact read_at_spec. Qed.
 Theorem C01_step_refines : forall K d s o ch d1 x s1 r data,
   0 < K -> inv K d -> Rel K d s ->
   step true K d o ch = (d1, x) ->
-  spec_step K s o (image K d1 (nf d1)) = Some (s1, r, data) ->
+  spec_step K s o (ores x, image K d1 (nf d1)) = Some (s1, r, data) ->
   inv K d1 /\ Rel K d1 s1 /\ ores x = r /\ (is_read o = true -> odata x = data).
 Proof. exact step_sim. Qed.
 
+(** A read while chain file [i] cannot be read either fails -- and then only location entries were
+    memoised: files, attributes, every image and the specification's state are unchanged -- or reports
+    success with, unit by unit, the specification's bytes (never zeros in place of written data). *)
+Theorem C01_faulted_read_fails_or_returns_written_data : forall K d s off len i ch, 0 < K -> inv K d -> Rel K d s ->
+  off + len <= nblk d * K ->
+  let '(d1, x) := step true K d (ReadFault off len i) ch in
+  memo d d1 /\ inv K d1 /\ Rel K d1 s /\
+  ((ores x = RErr /\ odata x = []) \/ (ores x = ROk /\ odata x = firstn len (skipn off (live s)))).
+Proof. exact read_fault_sound. Qed.
+
+(** Which of the two, for one fullReadAt call (a block-aligned request of [cnt] blocks from block [b]): it
+    fails exactly when one of its blocks is served from the broken file, whichever run that block is in. *)
+Theorem C01_faulted_fullread_fails_iff_broken_file_serves : forall d i cnt b, 1 <= nf d -> loc_ok d ->
+  fst (full_read_fault d i cnt b) = existsb (fun k => hit i (fst (lookup d (b + k)))) (seq 0 cnt).
+Proof. exact full_read_fault_iff. Qed.
+
 Print Assumptions C01_read_your_writes.
+Print Assumptions C01_faulted_read_fails_or_returns_written_data.
+Print Assumptions C01_faulted_fullread_fails_iff_broken_file_serves.
 Print Assumptions C01_read_after_history.
 Print Assumptions C01_write_exact.
 Print Assumptions C01_read_is_image.
 Print Assumptions C01_step_refines.
+
+(** controller half (model Ctl): the executable trace oracle [c01_step] that the correspondence run
+    evaluates on the real controller's observations (a write or read outside the volume is not
+    acknowledged, touches no replica and leaves the replica list alone) accepts every trace of the
+    controller model, histories with concurrent pairs included *)
+From Jiva Require Import Ctl.Model Ctl.Corr Ctl.Oracles Ctl.OracleProofsX Ctl.OracleProofsX3.
+
+Theorem C01_controller_oracle_accepts_model_traces_with_pairs : forall xs rf0 n w0,
+  Ctl.Oracles.walk (Ctl.Oracles.lift (c01_step rf0) nopair) 0 (Ctl.Oracles.obs0 rf0 n w0) xs
+                   (Ctl.Corr.trace n (Ctl.Model.init rf0 w0) xs) = None.
+Proof. exact c01_oracle_model_x. Qed.
+
+Print Assumptions C01_controller_oracle_accepts_model_traces_with_pairs.
